@@ -45,6 +45,7 @@ Proof.
   - rewrite IHb; auto.
   - apply andb_true_iff in Hb. destruct Hb as [A B]. rewrite IHb1, IHb2; auto.
   - rewrite (ev_agree o u e1 e2 e H Hb). reflexivity.
+  - reflexivity.
 Qed.
 
 Lemma agree_weaken : forall u u' e1 e2, agree u e1 e2 -> (forall r, tainted u r = true -> tainted u' r = true) -> agree u' e1 e2.
